@@ -126,6 +126,9 @@ func c17Retry(run *Run, j *histJob) {
 				}
 				run.Fail(sig, what, replay)
 			}
+			if x.K > 0 && sp.DisableRetry {
+				run.Fail("C17:retried-although-retry-disabled-for-request", fmt.Sprintf("the request carries proxy_disable_retry = true (its body cannot be replayed), yet attempt %d was started (retry_on=%v)", x.K, sp.RetryOn), replay)
+			}
 			if x.K > 0 {
 				if host == lastHost && sp.NHosts >= 2 {
 					run.Fail("C17:retry-same-host", fmt.Sprintf("attempt %d went to the same host %s as attempt %d (round robin over %d hosts)", x.K, host, x.K-1, sp.NHosts), replay)
@@ -331,6 +334,9 @@ func c17(args []string) int {
 		if r.Intn(3) == 0 {
 			sp.RouteTryMs = slot + 15
 		}
+		if r.Intn(8) == 0 {
+			sp.DisableRetry = true
+		}
 		if r.Intn(2) == 0 {
 			sp.Flavour = "http" // the status travels through the context variable (HTTP/1.1, HTTP/2 upstreams)
 		}
@@ -419,6 +425,20 @@ func c17(args []string) int {
 			// first attempt / attempt after a connect failure ended by the global time-out
 			specs = append(specs, &Spec{Flavour: fl, Route: "forward", NHosts: 2, RouteGlobalMs: 2 * slot, RetryOn: true, NumRetries: 3, StatusCodes: codes},
 				&Spec{Flavour: fl, Route: "forward", NHosts: 2, RouteGlobalMs: 2 * slot, RetryOn: true, NumRetries: 3, StatusCodes: codes, Pool: []string{"connfail"}})
+		}
+	}
+	// requests that carry proxy_disable_retry: never retried, on routes with and without retry_on, for every failure
+	for _, ron := range []bool{false, true} {
+		for _, fl := range []string{"", "http"} {
+			specs = append(specs,
+				&Spec{DisableRetry: true, Flavour: fl, Route: "forward", NHosts: 2, RouteGlobalMs: 3 * slot, RetryOn: ron, NumRetries: 2, HasData: true, Pool: []string{"connfail"}},
+				&Spec{DisableRetry: true, Flavour: fl, Route: "forward", NHosts: 2, RouteGlobalMs: 3 * slot, RetryOn: ron, NumRetries: 2,
+					Events: []Event{{AtMs: slot, Kind: "upreset", K: 0, Reason: "connfailed"}}},
+				&Spec{DisableRetry: true, Flavour: fl, Route: "forward", NHosts: 2, RouteGlobalMs: 3 * slot, RetryOn: ron, NumRetries: 2,
+					Events: []Event{{AtMs: slot, Kind: "upresp", K: 0, Status: 503}}},
+				&Spec{DisableRetry: true, Flavour: fl, Route: "forward", NHosts: 2, RouteGlobalMs: 4 * slot, RouteTryMs: slot, RetryOn: ron, NumRetries: 2},
+				&Spec{DisableRetry: true, Flavour: fl, Route: "forward", NHosts: 2, RouteGlobalMs: 3 * slot, RetryOn: ron, NumRetries: 2,
+					Events: []Event{{AtMs: slot, Kind: "upreset", K: 0, Reason: "termination"}}})
 		}
 	}
 	jobs := make([]*histJob, len(specs))
